@@ -27,9 +27,41 @@ def run(tier, replay=None):
     kb = pipeline.prepare("kinds-" + tier, ks, kcells)
     ktotal = pipeline.run(kb, kcells, "vlib.checks._cat", "plan_dump_kinds", {"cap": 8 if tier == "quick" else 30, "flags": ""})
     _cat.report_pipeline(rep, kb, ktotal, "dec-kinds")
+    # constant evaluation (C++20 and later): the same images as constexpr arrays, every scalar getter static_asserted
+    import os
+    from ..enum import values
+    from ..gen import build as gbuild, constexprx
+    from ..model import codec, layout
+    ce_cells = [("g++", "c++20"), ("clang++", "c++20")] if tier == "quick" else [("g++", "c++20"), ("g++", "c++23"), ("clang++", "c++20"), ("clang++", "c++2b")]
+    ce_asserts = 0
+    for s, _ in ks:
+        root = os.path.join(cxx.workdir("c02ce-" + tier), s.package)
+        sb = gbuild.SchemaBuild(s, root)
+        if not sb.generate():
+            rep.harness_error("kinds rejected: " + sb.log[-300:])
+            continue
+        rms = layout.Resolver(s).messages()
+        cases = []
+        for rm in rms:
+            for shape in list(values.size_vectors(rm.level, (2,), (1,)))[:1] + list(values.size_vectors(rm.level, (0, 1), (0,)))[:2]:
+                for j in range(15 if tier != "quick" else 6):
+                    inst = values.fill_boundary(rm.level, shape, j, values.ByteGen(0x21 + j))
+                    img, placed = codec.encode(s, rm, inst, fill=0xEE)
+                    cases.append((rm, inst, img, placed))
+        src, n = constexprx.source(s, rms, sb.top_header(), cases)
+        cpp = os.path.join(root, "ce.cpp")
+        open(cpp, "w").write(src)
+        for cell, (okc, log) in zip(ce_cells, cxx.pmap(lambda c: cxx.syntax(c, cpp, includes=[sb.inc], nowarn=False), ce_cells)):
+            ce_asserts += n
+            if not okc:
+                first = [l for l in log.splitlines() if "error" in l or "static assertion" in l][:3]
+                rep.violation("constexpr-getter:%s" % ("static-assert" if "static assertion" in log or "static_assert" in log else "not-constant-evaluable"),
+                              {"schema": s.package, "cell": cxx.cell_name(cell), "msg": "%s on %s: %s" % (s.package, cxx.cell_name(cell), " | ".join(first))})
+    rep.set("constexpr_static_asserts", ce_asserts)
+    rep.set("constexpr_cells", [cxx.cell_name(c) for c in ce_cells])
     rep.set("kinds_evaluations", ktotal.cases)
     rep.set("kinds_cells", [cxx.cell_name(c) for c in kcells])
-    rep.set("evaluations", total.cases + ktotal.cases)
+    rep.set("evaluations", total.cases + ktotal.cases + ce_asserts)
     rep.set("decoded_ok", total.ok + ktotal.ok)
     rep.set("distinct_nontrivial", len(total.distinct) + len(ktotal.distinct))
     rep.set("rule", "one evaluation = one (message shape, size vector, value vector, reader, cell) image decoded completely; "
